@@ -1,0 +1,57 @@
+//! Verification hooks. Compiled only with `--cfg dmd_core_verif`.
+//!
+//! Re-exports the otherwise crate-private types so that an external
+//! harness can drive them, and provides a virtual clock that replaces
+//! `std::time::Instant` inside the DUART.
+
+pub use crate::bus::{AccessCode, Bus, Device};
+pub use crate::cpu::{AddrMode, Cpu, Data, Instruction, Operand};
+pub use crate::dmd::Dmd;
+pub use crate::duart::Duart;
+pub use crate::err::{BusError, CpuError, CpuException};
+pub use crate::mem::Mem;
+pub use crate::mouse::Mouse;
+pub use crate::utils::FifoQueue;
+
+pub mod clock {
+    use std::cell::Cell;
+    use std::ops::Add;
+    use std::time::Duration;
+
+    thread_local! {
+        static NOW_NS: Cell<u64> = Cell::new(0);
+    }
+
+    /// Set the virtual time (nanoseconds) seen by this thread.
+    pub fn set_ns(ns: u64) {
+        NOW_NS.with(|c| c.set(ns));
+    }
+
+    /// Advance the virtual time seen by this thread.
+    pub fn advance_ns(ns: u64) {
+        NOW_NS.with(|c| c.set(c.get().wrapping_add(ns)));
+    }
+
+    pub fn now_ns() -> u64 {
+        NOW_NS.with(|c| c.get())
+    }
+
+    /// Drop-in replacement for the parts of `std::time::Instant`
+    /// that the DUART uses.
+    #[derive(Clone, Copy, Debug, Eq, PartialEq, Ord, PartialOrd)]
+    pub struct Instant(pub u64);
+
+    impl Instant {
+        pub fn now() -> Instant {
+            Instant(now_ns())
+        }
+    }
+
+    impl Add<Duration> for Instant {
+        type Output = Instant;
+
+        fn add(self, d: Duration) -> Instant {
+            Instant(self.0.wrapping_add(d.as_nanos() as u64))
+        }
+    }
+}
